@@ -536,6 +536,10 @@ def dot(a, b, axis=None):
         if len(a.N) < len(b.N):
             raise ShapeMismatch(
                 'Number of the modes of the first tensor must be equal with the second.')
+        if len(axis) != len(b.N) or any(not isinstance(i, int) or i < 0 or i >= len(a.N) for i in axis) or list(axis) != sorted(set(axis)):
+            raise InvalidArguments('axis must list, in increasing order, one mode of the first tensor for every mode of the second.')
+        if [a.N[i] for i in axis] != b.N:
+            raise ShapeMismatch('Operands are not the same size along the contracted modes.')
         # if a.N[axis] != b.N:
         #     raise Exception('Dimension mismatch.')
 
